@@ -4,6 +4,7 @@ and C17: atom pools restricted to atoms with neutron data, compounds (flat
 {atom: count} dicts and rendered derivation trees), density and wavelength
 arguments, and the tolerance rule.
 """
+from . import subtable
 import math
 from fractions import Fraction
 
@@ -83,7 +84,7 @@ def penv():
     from periodictable import core, mass, density, nsf
     pub = S["table"]
     pub.H.neutron.b_c                      # the public neutron data are loaded first
-    T = core.PeriodicTable("c03-private-H=1")
+    T = subtable.new("c03-private-H=1")
     mass.init(T)
     density.init(T)
     scale = pub.H[1].mass
